@@ -160,17 +160,22 @@ public:
     PointT barycenter(EdgeHandle _eh) const {
         const PointT &a = vertex(TopologyKernelT::edge(_eh).from_vertex());
         const PointT &b = vertex(TopologyKernelT::edge(_eh).to_vertex());
-        if constexpr (std::is_floating_point<typename PointT::value_type>::value) {
-            // halve first: the sum of two large coordinates overflows
-            return PointT(0.5 * a + 0.5 * b);
-        } else {
-            // integer positions: halving each end point alone truncates twice,
-            // and the plain sum overflows - halve, then add the lost halves
+        if constexpr (std::is_integral<typename PointT::value_type>::value) {
+            // integer positions: (a + b) / 2, truncated towards zero, without
+            // forming the sum (it overflows) and without halving each end
+            // point alone (that truncates twice)
             PointT p(a);
             for (size_t i = 0; i < p.size(); ++i) {
-                p[i] = a[i] / 2 + b[i] / 2 + (a[i] % 2 + b[i] % 2) / 2;
+                const auto q = a[i] / 2 + b[i] / 2;   // sum of the halves
+                const auto r = a[i] % 2 + b[i] % 2;   // lost remainders: -2 .. 2
+                if (r == 1 && q < 0)        p[i] = q + 1;
+                else if (r == -1 && q > 0)  p[i] = q - 1;
+                else                        p[i] = q + r / 2;
             }
             return p;
+        } else {
+            // halve first: the sum of two large coordinates overflows
+            return PointT(0.5 * a + 0.5 * b);
         }
     }
 
